@@ -49,6 +49,10 @@ import (
 
 const maxMessageSize = 1 << 20
 
+// maxUpdates bounds the dirty releases of one trace (one bit each in a
+// mask that TLC reads as a 32-bit integer).
+const maxUpdates = 29
+
 var (
 	storeThreads = []string{"t1", "t2", "t3"}
 	// storeDigests are the digests schedules work on; drainDigest is
@@ -64,8 +68,12 @@ type statsHandle = re_blobstore.MutableProtoHandle[*iscc.PreviousExecutionStats]
 
 type threadKey struct{}
 
-// contentVersion is the ghost "content version" of a stats message: the
-// driver stores it in last_seen_failure.seconds.
+// contentVersion is the ghost content of a stats message: the set of
+// updates (dirty releases, numbered 1, 2, ... per trace) the message
+// incorporates, as a bit mask (update u = bit u) that the driver keeps in
+// last_seen_failure.seconds. A dirty release adds its bit to whatever the
+// handle's message held, so a handle that was created from a stale read
+// visibly lacks the updates it did not see.
 func contentVersion(m *iscc.PreviousExecutionStats) int {
 	if m == nil || m.LastSeenFailure == nil {
 		return 0
@@ -463,9 +471,10 @@ func (w *world) exec(c cmd) bool {
 		}
 		if c.Ok {
 			m := th.handle.GetMutableProto()
-			w.latest[th.d]++
 			w.upds++
-			m.LastSeenFailure = &timestamppb.Timestamp{Seconds: int64(w.latest[th.d])}
+			bit := 1 << uint(w.upds)
+			w.latest[th.d] |= bit
+			m.LastSeenFailure = &timestamppb.Timestamp{Seconds: int64(contentVersion(m) | bit)}
 		}
 		th.handle.Release(c.Ok)
 		th.pc, th.d, th.ex, th.pinned, th.h, th.handle = "idle", "none", false, 0, 0, nil
@@ -504,7 +513,7 @@ func (w *world) enabled(allowGet, allowDirty, allowFail bool) []cmd {
 			}
 		case "hold":
 			out = append(out, cmd{"rel", t, th.d, 0, false})
-			if allowDirty {
+			if allowDirty && w.upds < maxUpdates {
 				out = append(out, cmd{"rel", t, th.d, 0, true})
 			}
 		case "get":
